@@ -131,3 +131,51 @@ Proof.
     destruct (tfhd_in ks y Hy) as (Hyf & Hyn).
     rewrite (same_key_leaf x y K (Hleaf x N_tfhd Hx E eq_refl) (Hleaf y N_tfhd Hyf Hyn eq_refl)). exact Hy.
 Qed.
+
+(* ------------------------------------------------------------------ the file has no moov.udta.meta.ilst yet (__save_new) *)
+Require Import Proofs.Fam_mp4_new.
+
+Theorem c10_offsets_follow_data_new f ilst_data cb f' atoms path last rest :
+  mp4_wf f = true -> mp4_atoms f = Ok atoms -> mp4_path atoms ILST_PATH = None ->
+  insert_path atoms = Some path -> rev path = last :: rest ->
+  (forall T, In T (all_tabs atoms) -> ma_off T <> ma_off last + ma_hdr last) ->
+  mp4_save f ilst_data cb = Ok f' ->
+  let off := ma_off last + ma_hdr last in
+  let data := new_insert cb f last ilst_data in
+  let delta := zlen f' - zlen f in
+  let np := mp4_newpos off 0 delta in
+  0 <= off <= zlen f /\ delta = zlen data /\
+  (forall T, In T (mp4_stco_list atoms) ->
+     tab_entries 4 f' (np (ma_off T)) = map (mp4_shift off delta) (tab_entries 4 f (ma_off T))) /\
+  (forall T, In T (mp4_co64_list atoms) ->
+     tab_entries 8 f' (np (ma_off T)) = map (mp4_shift off delta) (tab_entries 8 f (ma_off T))) /\
+  (forall T, In T (mp4_tfhd_list atoms) -> tfhd_flag f (ma_off T) = true ->
+     tfhd_flag f' (np (ma_off T)) = true /\
+     tfhd_base f' (np (ma_off T)) = mp4_shift off delta (tfhd_base f (ma_off T))) /\
+  (forall L, In L (mp4_flat atoms) -> ma_kids L = None -> is_table_name L = false ->
+     (ma_off L + ma_len L <= off \/ off <= ma_off L) ->
+     agree f (ma_off L) f' (np (ma_off L)) (ma_len L)) /\
+  agree data 0 f' off (zlen data) /\
+  (forall A, In A path -> anc_updated f delta f' A).
+Proof.
+  intros Hwf Ha Hnone Hip Hlast Hfirst Hs. destruct (wf_forest f atoms Hwf Ha) as (H1 & H2).
+  unfold mp4_save in Hs. rewrite Ha, Hnone in Hs.
+  destruct (save_new_unfold f atoms ilst_data cb f' Hs) as (path' & last' & rest' & Hip' & Hlast' & Hfit & f2 & R1 & R2).
+  rewrite Hip in Hip'. inversion Hip'; subst path'. rewrite Hlast in Hlast'. inversion Hlast'; subst last' rest'.
+  cbv zeta in *. set (off := ma_off last + ma_hdr last) in *. set (data := new_insert cb f last ilst_data) in *.
+  assert (R1' : mp4_update_parents (zlen data - 0) (splice f off 0 data) (map ma_off path) = Ok f2) by (rewrite Z.sub_0_r; exact R1).
+  assert (R2' : mp4_update_offsets atoms (zlen data - 0) off f2 = Ok f') by (rewrite Z.sub_0_r; exact R2).
+  pose proof (new_result f atoms H1 H2 path last rest Hip Hlast Hfirst data f2 f' R1' R2') as (Z & Fr & AGD & UA & U4 & U8 & UT).
+  pose proof (last_facts f atoms H1 path last rest Hip Hlast) as (_ & _ & _ & _ & Hoff).
+  assert (Hd : zlen f' - zlen f = zlen data - 0) by lia.
+  rewrite Hd. split; [exact Hoff|]. split; [lia|]. split; [|split; [|split; [|split; [|split]]]].
+  - intros T HT. destruct (U4 T HT) as (_ & E). rewrite mv_newpos in E. exact E.
+  - intros T HT. destruct (U8 T HT) as (_ & E). rewrite mv_newpos in E. exact E.
+  - intros T HT Hfl. destruct (UT T HT) as (A12 & _ & UTT). destruct (UTT Hfl) as (TB & A16 & _).
+    rewrite mv_newpos in *. split; [|exact TB].
+    rewrite <- Hfl. symmetry. apply (tfhd_flag_agree _ _ _ _ _ A12). lia.
+  - intros L HL KL NL Hpos. rewrite <- mv_newpos.
+    exact (new_leaf_kept f atoms H1 H2 path last rest Hip Hlast Hfirst data f2 f' R1' R2' L HL KL NL Hpos).
+  - exact AGD.
+  - exact UA.
+Qed.
